@@ -678,6 +678,59 @@ impl Fm {
         self.emit_fmap(sink, &req, resp);
     }
 
+    /// `fmap entry_peek`: the read accessors of the entry API — `Entry::key`, then
+    /// `OccupiedEntry::key` / `get` / `get_mut` resp. `VacantEntry::key` — without any update;
+    /// model-compared, and judged against the reference map.
+    pub fn read_entry_peek(&mut self, sink: &mut Sink, ei: usize, attr: bool, key: usize) {
+        let e = self.elems[ei].label;
+        let a = self.node(e);
+        let xot = &mut self.s.xot;
+        let vocab = &self.s.vocab;
+        let r: Option<String> = if attr {
+            let name = vocab.name(key);
+            guarded(|| {
+                let mut m = xot.attributes_mut(a);
+                let en = m.entry(name);
+                let k0 = name_num(*en.key());
+                match en {
+                    Entry::Occupied(mut o) => {
+                        let k1 = name_num(*o.key());
+                        let g = o.get().clone();
+                        let gm = o.get_mut().clone();
+                        format!("occ {} {} {} {}", k0, k1, enc(&g), enc(&gm))
+                    }
+                    Entry::Vacant(v) => format!("vac {} {}", k0, name_num(*v.key())),
+                }
+            })
+        } else {
+            let p = vocab.prefix(key);
+            guarded(|| {
+                let mut m = xot.namespaces_mut(a);
+                let en = m.entry(p);
+                let k0 = prefix_num(*en.key());
+                match en {
+                    Entry::Occupied(mut o) => {
+                        let k1 = prefix_num(*o.key());
+                        let g = ns_num(*o.get());
+                        let gm = ns_num(*o.get_mut());
+                        format!("occ {} {} {} {}", k0, k1, g, gm)
+                    }
+                    Entry::Vacant(v) => format!("vac {} {}", k0, prefix_num(*v.key())),
+                }
+            })
+        };
+        let resp = r.unwrap_or_else(|| "panic".to_string());
+        let req = format!("entry_peek {} {} {}", kind(attr), e, key);
+        let resp = self.emit_fmap(sink, &req, resp);
+        let view = &self.elems[ei].views[vi(attr)];
+        let want = match view.get(key) {
+            Some(x) => format!("occ {} {} {} {}", key, key, x.val.wire(), x.val.wire()),
+            None => format!("vac {} {}", key, key),
+        };
+        sink.stat(&format!("entryapi.peek.{}", if view.get(key).is_some() { "occupied" } else { "vacant" }));
+        self.expect(sink, "entry_peek", &req, &resp, &want);
+    }
+
     /// `to_string(e)` writes the declarations, then the attributes, each in map order.
     pub fn check_to_string(&mut self, sink: &mut Sink, ei: usize) {
         let e = self.elems[ei].label;
@@ -960,6 +1013,13 @@ pub fn one_history(rng: &mut Rng, sink: &mut Sink, n_ops: usize) {
         if rng.chance(1, 3) {
             let a2 = rng.chance(1, 2);
             fm.read_get(sink, ei, a2, any_key(rng, a2));
+        }
+        if rng.chance(1, 3) {
+            let a2 = rng.chance(1, 2);
+            fm.read_entry_peek(sink, ei, a2, any_key(rng, a2));
+            if fm.dead {
+                return;
+            }
         }
         if rng.chance(1, 3) {
             fm.check_to_string(sink, ei);
